@@ -316,7 +316,43 @@ func (c *trCtx) stmts(ss []ast.Stmt, terminal string, ind string) string {
 					}
 				}
 			}
-			return c.fail("two-valued assignment outside the Atoi-with-default pattern")
+			// n, err := strconv.ParseUint(e, 10, 64); if err == nil { ... }
+			if ce, ok := x.Rhs[0].(*ast.CallExpr); ok {
+				if se, ok := ce.Fun.(*ast.SelectorExpr); ok && se.Sel.Name == "ParseUint" && len(ce.Args) == 3 {
+					nv, _ := x.Lhs[0].(*ast.Ident)
+					ev, _ := x.Lhs[1].(*ast.Ident)
+					base, _ := ce.Args[1].(*ast.BasicLit)
+					bits, _ := ce.Args[2].(*ast.BasicLit)
+					if is, ok := rest[0].(*ast.IfStmt); ok && nv != nil && ev != nil && base != nil && bits != nil && base.Value == "10" && bits.Value == "64" && is.Init == nil && is.Else == nil {
+						if be, ok := is.Cond.(*ast.BinaryExpr); ok && be.Op == token.EQL {
+							l, _ := be.X.(*ast.Ident)
+							r, _ := be.Y.(*ast.Ident)
+							if l != nil && r != nil && l.Name == ev.Name && r.Name == "nil" {
+								vars := assigned(is.Body.List)
+								if len(vars) == 0 {
+									return c.fail("a ParseUint block that assigns nothing")
+								}
+								var vs []string
+								for _, v := range vars {
+									vs = append(vs, "v_"+v)
+								}
+								tuple, pat := strings.Join(vs, ", "), vs[0]
+								if len(vs) > 1 {
+									tuple = "(" + tuple + ")"
+									pat = "'" + tuple
+								}
+								if c.ints == nil {
+									c.ints = map[string]bool{}
+								}
+								c.ints[nv.Name] = true
+								return "let " + pat + " := match parse_uint 18446744073709551616 " + c.expr(ce.Args[0]) + " with Some n_" + nv.Name + " => " +
+									c.stmts(is.Body.List, tuple, ind+"  ") + " | None => " + tuple + " end in\n" + ind + c.stmts(rest[1:], terminal, ind)
+							}
+						}
+					}
+				}
+			}
+			return c.fail("two-valued assignment outside the Atoi-with-default and ParseUint-then-use patterns")
 		}
 		if len(x.Lhs) != 1 || len(x.Rhs) != 1 {
 			return c.fail("assignment of several values")
@@ -1385,4 +1421,66 @@ func genMtreeLine(repo, out string) {
 		fmt.Fprintf(&b, "(* cases: %v -> MDir, %v -> MLink, default -> MFile *)\nDefinition src_mtree_line (e : mentry) : str :=\n  match me_kind e with\n  | MDir => %s\n  | MLink => %s\n  | MFile => %s\n  end.\nDefinition src_mtree_line_translated : bool := true.\n", labelsOf["MDir"], labelsOf["MLink"], lines["MDir"], lines["MLink"], lines["MFile"])
 	}
 	writeIfChanged(filepath.Join(out, "MtreeLine.v"), b.String())
+}
+
+
+// ---- archlinux: the pkgver of .PKGINFO, the slice of createPkginfo that computes it ----
+func genArchPkgver(repo, out string) {
+	f := parseFile(filepath.Join(repo, "arch/arch.go"))
+	c := &trCtx{}
+	body := "[]"
+	var fd *ast.FuncDecl
+	for _, d := range f.Decls {
+		if x, ok := d.(*ast.FuncDecl); ok && x.Name.Name == "createPkginfo" && x.Body != nil {
+			fd = x
+		}
+	}
+	if fd == nil {
+		c.fail("no function createPkginfo in arch/arch.go")
+	} else {
+		// the statements that define or assign pkgrel or pkgver, in order (an if counts when its body assigns one of them,
+		// and the error check that follows a two-valued definition goes with it)
+		want := map[string]bool{"pkgrel": true, "pkgver": true}
+		var slice []ast.Stmt
+		takeNext := false
+		for _, st := range fd.Body.List {
+			take := takeNext
+			takeNext = false
+			switch x := st.(type) {
+			case *ast.AssignStmt:
+				for _, l := range x.Lhs {
+					if id, ok := l.(*ast.Ident); ok && want[id.Name] {
+						take = true
+						if len(x.Lhs) == 2 {
+							takeNext = true
+						}
+					}
+				}
+			case *ast.IfStmt:
+				for _, v := range assigned(x.Body.List) {
+					if want[v] {
+						take = true
+					}
+				}
+			}
+			if take {
+				slice = append(slice, st)
+			}
+		}
+		if len(slice) == 0 {
+			c.fail("createPkginfo defines no pkgver")
+		} else {
+			slice = append(slice, &ast.ReturnStmt{Results: []ast.Expr{ast.NewIdent("pkgver")}})
+			body = c.stmts(slice, "", "  ")
+		}
+	}
+	var b strings.Builder
+	b.WriteString("(* GENERATED from /repo (arch/arch.go: the statements of createPkginfo that compute pkgver) on every run by translators/strfn.go (genArchPkgver) - do not edit *)\n")
+	b.WriteString("From Coq Require Import List String Bool NArith ZArith.\nFrom Coq Require Import Strings.Byte.\nFrom NfpmV Require Import Lib.Bytes Model.Content Model.Meta.\nImport ListNotations.\nOpen Scope list_scope.\nOpen Scope bool_scope.\n\n")
+	if c.err != "" {
+		fmt.Fprintf(&b, "(* UNTRANSLATABLE - %s *)\nDefinition src_arch_pkgver (i : minfo) (arch : str) : str := [].\nDefinition src_arch_pkgver_translated : bool := false.\n", c.err)
+	} else {
+		fmt.Fprintf(&b, "Definition src_arch_pkgver (i : minfo) (arch : str) : str :=\n  %s.\nDefinition src_arch_pkgver_translated : bool := true.\n", body)
+	}
+	writeIfChanged(filepath.Join(out, "ArchPkgver.v"), b.String())
 }
